@@ -48,6 +48,11 @@ func runDownFamily(s *Sim, prop string) {
 		maxSteps *= Pick(t, "steps-x", 1, 2, 4)
 	}
 	s.yieldDensity = Pick(t, "yield", 0, 0, 20, 200)
+	// a broker that is slow to take the client's frames: ack writes stay in flight while reads go on
+	if w := Pick(t, "link-window", 0, 0, 1, 2); w > 0 {
+		s.Net.Window = w
+		s.Stat("env.link-backpressure")
+	}
 	closeEarly := prop == "C04" && t.Bool("close-early", 1, 2)
 	badAlias := prop == "C03" && t.Bool("bad-alias", 1, 3)
 	// C04 variants: one transport failure in the middle (acks across resume), and a burst of reads
@@ -171,6 +176,13 @@ func runDownFamily(s *Sim, prop string) {
 		acts = append(acts, Action{Name: "advance", W: 4, Do: func() {
 			y.Advance(Pick(t, "adv", time.Millisecond, 10*time.Millisecond, 100*time.Millisecond, time.Second, 11*time.Second))
 		}})
+		if s.Net.Window > 0 && y.PingInterval >= time.Hour {
+			// time passes while the broker has not taken the client's frames yet (keepalive is out
+			// of reach in this variant): ack-flush ticks find their predecessor still in flight
+			acts = append(acts, Action{Name: "advance-without-network", W: 4, Do: func() {
+				s.Advance(Pick(t, "adv-raw", 10*time.Millisecond, 100*time.Millisecond, time.Second, 11*time.Second))
+			}})
+		}
 		if cutsLeft > 0 && step > maxSteps/4 {
 			acts = append(acts, Action{Name: "cut", W: 1, Do: func() {
 				cutsLeft--
